@@ -53,8 +53,8 @@ extern MPT_INTERFACE(metatype) *mpt_meta_new(const MPT_STRUCT(value) *val)
 		if (!(buf = mpt_array_reserve(&a, reserve, traits))) {
 			return 0;
 		}
-		if (!mpt_buffer_set(buf, traits, len, text, 0)
-		 || ((reserve > len) && !mpt_buffer_set(buf, traits, 1, "", len))) {
+		if (mpt_buffer_set(buf, traits, 0, text, len) < 0
+		 || ((reserve > len) && mpt_buffer_set(buf, traits, len, "", 1) < 0)) {
 			mpt_array_clone(&a, 0);
 			return 0;
 		}
